@@ -19,7 +19,7 @@ Added after the seeding rounds (DESIGN.md 6.6-6.8):
  FEEDBACK.guard / FEEDBACK.step  the gradient step is decided by interpretation with opaque norms and is guarded by norm(f) != 0.
 """
 import ast
-LINT_EXTRA_FILES = ("ahrs/common/orientation.py",)      # acc2q / am2q / ecompass helpers the filters start from
+LINT_EXTRA_FILES = ("ahrs/common/orientation.py", "ahrs/utils/core.py")      # acc2q / am2q / ecompass helpers the filters start from; the shared input validators
 import numpy as np
 from sa import poly as P
 from sa.facts import Facts
